@@ -608,7 +608,7 @@ func (g *clientEngine) clientApplyView(lg *clientLog, c *clientCase) (view map[s
 		view[k] = b
 	// ---- checkpoints
 	case "ckpt-sig-flip", "ckpt-size", "ckpt-root", "ckpt-origin", "ckpt-extension", "ckpt-drop-log-sig", "ckpt-attacker-key",
-		"ckpt-attacker-key-same-id", "ckpt-other-name-attacker", "ckpt-truncate", "ckpt-garbage", "ckpt-older", "ckpt-missing", "ckpt-sig-trailing":
+		"ckpt-attacker-key-same-id", "ckpt-other-name-attacker", "ckpt-truncate", "ckpt-garbage", "ckpt-older", "ckpt-missing", "ckpt-sig-trailing", "ckpt-forged-zero-digest":
 		b, err := g.clientCkpt(lg, t)
 		if err != nil {
 			return nil, sct, err
@@ -758,6 +758,18 @@ func (g *clientEngine) clientCkpt(lg *clientLog, t clientTamper) ([]byte, error)
 	case "ckpt-older": // a genuine, older tree head of the same log: signed by the key, so acceptable
 		r := submitMTH(lg.hashes[:lg.n/2])
 		return build(text(nt.origin, int64(lg.n/2), r, ""), append(others, clientSigLine{nt.origin, logHash, sign(lg.key, int64(lg.n/2), r, ts-1000)})), nil
+	case "ckpt-forged-zero-digest":
+		// a tree head nobody signed, under the log's name and key hash, with a signature that is valid for the log's
+		// PUBLIC key over the all-zero digest (computable from the public key alone) and a hash-algorithm byte
+		// other than SHA-256: a verifier that leaves the digest empty for an algorithm it does not know accepts it
+		r := nt.root
+		r[0] ^= 0xFF
+		algs := []byte{0, 1, 2, 3, 5, 6, 7, 8, 255, 4}
+		blob := binary.BigEndian.AppendUint64(nil, ts)
+		der := ForgeZeroDigestECDSA(&lg.key.PublicKey, int64(t.A)+2)
+		blob = append(blob, algs[t.B%len(algs)], 3, byte(len(der)>>8), byte(len(der)))
+		blob = append(blob, der...)
+		return build(text(nt.origin, nt.n+1000, r, ""), []clientSigLine{{nt.origin, logHash, blob}}), nil
 	case "ckpt-missing":
 		return nil, nil
 	}
@@ -1194,7 +1206,7 @@ var clientDataTampers = []string{"data-swap", "data-rotate", "data-duplicate", "
 	"data-append-entry", "data-append-garbage", "data-bitflip", "data-empty", "data-missing", "data-other-log", "all-other-log"}
 var clientHashTampers = []string{"hash-bitflip", "hash-truncate", "hash-missing", "hash-extend"}
 var clientCkptTampers = []string{"ckpt-sig-flip", "ckpt-size", "ckpt-root", "ckpt-origin", "ckpt-extension", "ckpt-drop-log-sig", "ckpt-attacker-key",
-	"ckpt-attacker-key-same-id", "ckpt-other-name-attacker", "ckpt-truncate", "ckpt-garbage", "ckpt-older", "ckpt-missing", "ckpt-sig-trailing"}
+	"ckpt-attacker-key-same-id", "ckpt-other-name-attacker", "ckpt-truncate", "ckpt-garbage", "ckpt-older", "ckpt-missing", "ckpt-sig-trailing", "ckpt-forged-zero-digest"}
 var clientSCTTampers = []string{"sct-logid", "sct-other-log", "sct-timestamp", "sct-timestamp-high", "sct-index", "sct-index-and-timestamp",
 	"sct-signature-flip", "sct-signature-other-entry", "sct-signature-attacker", "sct-version", "sct-trailing", "sct-truncated", "sct-ext-missing",
 	"sct-ext-unknown-first", "sct-ext-short", "sct-index-out-of-range"}
